@@ -1189,11 +1189,13 @@ pub fn run_value_crate(tag: &str, modules: &[(u64, String, Vec<exec::ValueProbe>
             p.push_str("}\n");
             std::fs::write(dir.join(format!("src/p{idx}.rs")), p).map_err(|e| e.to_string())?;
             main.push_str(&format!("mod m{idx};\nmod p{idx};\n"));
-            calls.push_str(&format!("    p{idx}::run();\n"));
+            calls.push_str(&format!("    if only.is_none() || only.as_deref() == Some(\"{idx}\") {{ p{idx}::run(); }}\n"));
         }
         main.push_str(
             "pub fn emit(i: u64, k: usize, r: std::thread::Result<Result<String, String>>) {\n    match r {\n        Ok(Ok(s)) => println!(\"PROBE\\t{i}\\t{k}\\tok\\t{s}\"),\n        Ok(Err(e)) => println!(\"PROBE\\t{i}\\t{k}\\tde-err\\t{}\", e.replace('\\n', \" \")),\n        Err(_) => println!(\"PROBE\\t{i}\\t{k}\\tpanic\\t\"),\n    }\n}\nfn main() {\n    std::panic::set_hook(Box::new(|_| {}));\n",
         );
+        // with an argument: only that module (used to find the module that takes the process down)
+        main.push_str("    let only: Option<String> = std::env::args().nth(1);\n");
         main.push_str(&calls);
         main.push_str("}\n");
         std::fs::write(dir.join("src/main.rs"), main).map_err(|e| e.to_string())?;
@@ -1239,8 +1241,34 @@ pub fn run_value_crate(tag: &str, modules: &[(u64, String, Vec<exec::ValueProbe>
         }
         if out.status.success() {
             let exe = exe.ok_or_else(|| "cargo build reported no executable".to_string())?;
-            let run = std::process::Command::new(&exe).output().map_err(|e| format!("run {exe}: {e}"))?;
-            for line in String::from_utf8_lossy(&run.stdout).lines() {
+            let mut run = std::process::Command::new(&exe).output().map_err(|e| format!("run {exe}: {e}"))?;
+            let mut stdout_all = String::from_utf8_lossy(&run.stdout).to_string();
+            if !run.status.success() {
+                // something took the whole process down (abort, stack overflow):
+                // every module on its own; the one that dies answers `panic`
+                stdout_all.clear();
+                for (idx, _, probes) in modules {
+                    if dropped.contains(idx) {
+                        continue;
+                    }
+                    let one = std::process::Command::new(&exe).arg(idx.to_string()).output().map_err(|e| format!("run {exe}: {e}"))?;
+                    stdout_all.push_str(&String::from_utf8_lossy(&one.stdout));
+                    if !one.status.success() {
+                        let answered = String::from_utf8_lossy(&one.stdout).lines().filter(|l| l.starts_with("PROBE\t")).count();
+                        eprintln!(
+                            "note: the probe process of module m{idx} ended with {:?} after {answered} answers: {}",
+                            one.status,
+                            String::from_utf8_lossy(&one.stderr).lines().take(3).collect::<Vec<_>>().join(" | ")
+                        );
+                        // the probe that was running when the process died
+                        if answered < probes.len() {
+                            stdout_all.push_str(&format!("PROBE\t{idx}\t{answered}\tpanic\t\n"));
+                        }
+                    }
+                }
+                run.status = std::process::Command::new("true").status().map_err(|e| e.to_string())?;
+            }
+            for line in stdout_all.lines() {
                 let f: Vec<&str> = line.splitn(5, '\t').collect();
                 if f.len() == 5 && f[0] == "PROBE" {
                     let (Ok(i), Ok(k)) = (f[1].parse::<u64>(), f[2].parse::<usize>()) else { continue };
